@@ -106,7 +106,11 @@ def generate(seed: int, tier: str) -> Dict[str, Any]:
                         "now_ms": E.T0_MS + turn * 1000, "deltas": deltas, "store_fault": fault})
             turn += ro.choice([1, 1, 1, 0, 2])
     # how the caller hands the configuration over: ctx.cfg + ctx.config, or ctx.cfg only (TurnCtx, run_smoke_turn)
-    return {"world": world, "cfg": raw, "ops": ops, "ctx_style": r.choice(["both", "both", "cfg_only"]), "hand_namespaces": hand_ns}
+    style = r.choice(["both", "both", "cfg_only"])
+    # ... and what the configuration object IS: the attribute-dict of run_smoke_turn, rebuilt on every change, or ONE typed Config
+    # instance (clematis.engine.types.Config, what a loader hands every turn) that the caller edits in place between turns
+    form = "dataclass_in_place" if (style == "both" and hand_ns is None and r.chance(0.25)) else "attrdict"
+    return {"world": world, "cfg": raw, "ops": ops, "ctx_style": style, "hand_namespaces": hand_ns, "cfg_form": form}
 
 
 _EXC = {"RuntimeError": RuntimeError, "ValueError": ValueError, "KeyError": KeyError, "OSError": OSError}
@@ -114,6 +118,40 @@ _EXC = {"RuntimeError": RuntimeError, "ValueError": ValueError, "KeyError": KeyE
 
 class _NoGet:
     pass
+
+
+def _plain(o: Any) -> Any:
+    if isinstance(o, dict):
+        return {k: _plain(v) for k, v in o.items()}
+    if isinstance(o, list):
+        return [_plain(v) for v in o]
+    return o
+
+
+class _InPlaceRun(E.EngineRun):
+    """The configuration is one typed Config instance for the whole history; set_cfg edits it in place."""
+
+    def _mk_cfg(self):  # type: ignore[override]
+        import dataclasses
+        from clematis.engine.types import Config
+        plain = _plain(super()._mk_cfg())
+        names = {f.name for f in dataclasses.fields(Config)}
+        inst = getattr(self, "_inst", None)
+        if inst is None:
+            inst = Config(**{k: v for k, v in plain.items() if k in names})
+            for k, v in plain.items():
+                if k not in names:
+                    setattr(inst, k, v)
+            self._inst = inst
+            return inst
+        for k, v in plain.items():
+            cur = getattr(inst, k, None)
+            if isinstance(cur, dict) and isinstance(v, dict):
+                cur.clear()
+                cur.update(v)
+            else:
+                setattr(inst, k, v)
+        return inst
 
 
 class RecordingStore(InMemoryGraphStore):
@@ -182,7 +220,10 @@ def execute(program: Dict[str, Any]) -> Dict[str, Any]:
     with Scratch() as root:
         with E.EngineEnv(root, clock) as ee:
             store = RecordingStore()
-            run = E.EngineRun(program["world"], program["cfg"], ee, store=store)
+            in_place = program.get("cfg_form") == "dataclass_in_place"
+            run = (_InPlaceRun if in_place else E.EngineRun)(program["world"], program["cfg"], ee, store=store)
+            if in_place:
+                stats["typed_config_edited_in_place"] = 1
             if program.get("hand_namespaces"):
                 run.hand_set = [(["t4", "cache", "namespaces"], list(program["hand_namespaces"]))]
                 run.cfg = run._mk_cfg()
@@ -227,7 +268,7 @@ def execute(program: Dict[str, Any]) -> Dict[str, Any]:
                         run.step(op)
                         continue
                     st = run.state
-                    t4cfg = run.cfg.get("t4") or {}
+                    t4cfg = (run.cfg.get("t4") if hasattr(run.cfg, "get") else getattr(run.cfg, "t4", None)) or {}
                     enabled = bool(t4cfg.get("enabled", True))
                     every = max(1, int(t4cfg.get("snapshot_every_n_turns", 1)))
                     bust = str(t4cfg.get("cache_bust_mode") or "none")
